@@ -103,6 +103,22 @@ mut("c05-replace-parent-skipped", R, "            for ptr in tuple(model.child_p
 mut("c05-unregister-skipped", R, "        for model in models:\n            self._unregister(model)", "        for model in models[1:]:\n            self._unregister(model)", ["C05"])
 mut("c05-pointer-not-retargeted", R, "            for ptr in tuple(model.pointers):\n                ptr.replace(model_meta)",
     "            for ptr in tuple(model.pointers):\n                if ptr.parent is not None:\n                    ptr.replace(model_meta)", ["C05"])
+# ---- C06 ----------------------------------------------------------------------------------------------
+mut("c06-merge-order-unsorted", R, """        groups = sorted(
+            (sorted(group, key=models_order.__getitem__) for group in groups),
+            key=lambda group: models_order[group[0]]
+        )""", "        groups = [list(group) for group in groups]", ["C06"])
+mut("c06-literals-unsorted", CX, "                    for s in sorted(self.literals)", "                    for s in self.literals", ["C06"])
+mut("c06-parent-by-set-iteration", ST, "                parent = min(parents, key=models_order.index)\n                pos =", "                parent = next(iter(parents))\n                pos =", ["C06"])
+mut("c06-name-parts-unsorted", MM, "sorted(filtered_names)", "filtered_names", ["C06"])
+mut("c06-import-classes-unsorted", TY, "((module, sorted(classes)) for module, classes in class_imports_map.items())", "((module, list(classes)) for module, classes in class_imports_map.items())", ["C06"])
+# ---- C08 ----------------------------------------------------------------------------------------------
+mut("c08-int-float-absorption-removed", G, "        if int in other_types and float in other_types:\n            other_types.remove(int)", "        if False:\n            other_types.remove(int)", ["C08"])
+mut("c08-optional-collapse-removed", G, "            if isinstance(t, DOptional):\n                t = t.type\n            return meta.replace(t)", "            return meta.replace(t)", ["C08"])
+mut("c08-empty-union-crash-reintroduced", G, "            if Unknown in types and any(t is not Unknown and t is not Null for t in types):", "            if Unknown in types:", ["C08", "C01"])
+mut("c08-union-dedup-removed", CX, "                if h not in hashes:\n                    unique_types.append(t)", "                if True:\n                    unique_types.append(t)", ["C08"])
+mut("c08-single-member-union-kept", G, "            if len(meta_type.types) == 1:\n                meta_type = meta_type.types[0]\n\n            if optional:", "            if optional:", ["C08"])
+mut("c08-str-kept-next-to-pseudo", G, "        if str in str_types:\n            other_types.append(str)\n        elif str_types:", "        if str in str_types:\n            other_types.append(str)\n        if str_types and set(str_types) != {str}:\n            str_types = [t for t in str_types if t is not str]", ["C08"])
 # ---- neutral (behaviour preserving) -------------------------------------------------------------------
 mut("neutral-rename-local", G, "        fields_sets = [self._convert(data) for data in data_variants]\n        fields = self.merge_field_sets(fields_sets)",
     "        variants = [self._convert(data) for data in data_variants]\n        fields = self.merge_field_sets(variants)", ["C01", "C02", "C05"], kind="neutral")
